@@ -38,6 +38,20 @@ def main(p):
     except BaseException as e:
         return dict(import_error=probelib.exc_info(e))
     tp = a['proto_package']
+    # the unversioned alias package re-exports what the versioned one offers
+    import importlib
+    unv = re.sub(r'_v\d+\w*$', '', a['package'])
+    if unv != a['package']:
+        try:
+            um = importlib.import_module(unv)
+            lost = [n for n in getattr(lib.pkg, '__all__', ()) if not hasattr(um, n)]
+            if lost:
+                out['unversioned_error'] = f'names of the versioned package missing: {lost[:4]}'
+        except ModuleNotFoundError as e:
+            if e.name != unv:
+                out['unversioned_error'] = f'{type(e).__name__}: {e}'
+        except BaseException as e:
+            out['unversioned_error'] = f'{type(e).__name__}: {e}'
     for full in a['all_types']:
         try:
             if lib.type_of('.' + full, tp) is not None:
@@ -85,16 +99,24 @@ def main(p):
             req.project = 'p1'
         rec = {}
         try:
-            if rpc == 'RunLro':
-                res = p.cls(f'.{tp}.LroResult')()
+            oi = mdesc.options.Extensions[operations_pb2.operation_info]
+            if oi.response_type:
+                full_of = lambda t: '.' + (t if '.' in t else f'{tp}.{t}')
+                res = p.cls(full_of(oi.response_type))()
                 probelib.fill_all(res, 2, 0)
                 op = operations_pb2.Operation(name='operations/o1', done=True)
                 op.response.type_url = 'type.googleapis.com/' + res.DESCRIPTOR.full_name
                 op.response.value = res.SerializeToString()
+                md = p.cls(full_of(oi.metadata_type))()
+                probelib.fill_all(md, 2, 0)
+                op.metadata.type_url = 'type.googleapis.com/' + md.DESCRIPTOR.full_name
+                op.metadata.value = md.SerializeToString()
                 ch.script = [op.SerializeToString()]
                 fut = getattr(client, mname)(request=probelib.native(req))
                 r = fut.result()
-                rec['returned'] = [type(r).__name__, probelib.wire_of(r).hex()]
+                rec['returned'] = None if r is None else [type(r).__name__, probelib.wire_of(r).hex()]
+                m_ = fut.metadata
+                rec['metadata'] = None if m_ is None else [type(m_).__name__, probelib.wire_of(m_).hex()]
             elif rpc == 'StartX':
                 # extended operation: the call returns a future that polls the operation service through its polling method
                 Op = p.cls(f'.{tp}.Operation')
